@@ -1,10 +1,11 @@
 /-
   C17 — every subschema is addressable by its JSON Pointer (json_pointer.go).
   Property theorems only; helper lemmas: JSV/Proofs/PtrEscape.lean, PtrIndex.lean, PtrWalk.lean,
-  PtrCover.lean.
+  PtrCover.lean, PtrPaths.lean.
 -/
 import JSV.Proofs.PtrWalk
 import JSV.Proofs.PtrCover
+import JSV.Proofs.PtrPaths
 namespace JSV.C17
 open JSV Pointer
 
@@ -135,6 +136,32 @@ theorem step_type_dead (st : Store) (strict : Bool) (id : NodeId) (n : Node)
     (hn : st.get? id = some n) : step st strict (.node id) "type" = .ok .dead :=
   step_node st strict id n "type" .dead hn (by simp [lookupField])
 
+/-! ## every registered subschema is addressable by its recorded path -/
+
+/-- checkStructure (resolve.go) records a path string for every schema reachable from the root.
+    That string is "root" for the root itself and otherwise a JSON Pointer that
+    dereferenceJSONPointer resolves, from the root, to exactly that schema.
+    Hypotheses on the visited schemas: basicChecks passed (only its `items` / `itemsArray` clause is
+    used) and the association lists standing for Go maps have distinct keys. -/
+theorem registered_schemas_addressable (st : Store) (fuel : Nat) (root : NodeId)
+    (res : List (NodeId × Go.Info))
+    (h : Go.checkStructure st fuel [(root, "")] [] = .ok res)
+    (hbasic : ∀ e ∈ res, ∀ n, st.get? e.1 = some n → Go.basicChecksOk n = true)
+    (hmaps : ∀ e ∈ res, ∀ n, st.get? e.1 = some n →
+      ∀ j kvs, ChildField.keyed j (some kvs) ∈ n.childFields → (kvs.map (·.1)).Nodup) :
+    ∀ e ∈ res, (e.1 = root ∧ e.2.path = "root") ∨
+      dereference st true true root e.2.path = .ok e.1 :=
+  checkStructure_addressable st fuel root res h
+    (fun e he n hn => ⟨basicChecksOk_items n (hbasic e he n hn), hmaps e he n hn⟩)
+
+/-- the path strings of checkStructure are renderings of reference-token lists: one level -/
+theorem childEntries_are_pointers (st : Store) (a : NodeId) (n : Node) (p : List String)
+    (hn : st.get? a = some n) (hitems : n.items = none ∨ n.itemsArray = none)
+    (hmaps : ∀ j kvs, ChildField.keyed j (some kvs) ∈ n.childFields → (kvs.map (·.1)).Nodup)
+    (c : NodeId) (q : String) (h : (c, q) ∈ Go.childEntries n (render p)) :
+    ∃ p', Path st a p' c ∧ q = render (p ++ p') :=
+  childEntries_spec st a n p hn ⟨hitems, hmaps⟩ c q h
+
 /-! ## coverage of the Go struct (regenerated field table) -/
 
 /-- every field of the Go struct whose type mentions `Schema` has one of the three shapes
@@ -179,6 +206,19 @@ example : dereference exStore true false 0 "/properties/m~0n/not" = .ok 10000000
 /-- non-schema fields -/
 example : dereference exStore true true 0 "/type" = .err := by decide
 example : dereference exStore true true 0 "/type/0" = .err := by decide
+/-- checkStructure on the example: five paths, each dereferences to its schema -/
+example : (Go.checkStructure exStore 8 [(0, "")] []).bind (fun res => .ok (res.map fun e => (e.1, e.2.path))) =
+    .ok [(0, "root"), (1, "/properties/a~1b"), (3, "/properties/a~1b/items/0"),
+         (4, "/properties/a~1b/items/1"), (5, "/properties/a~1b/items/1/not"), (2, "/properties/m~0n")] := by
+  decide +kernel
+/-- the `items` side condition is needed: with both forms set (basicChecks rejects this schema) the path
+    recorded for the array element does not lead to it -/
+example :
+    let st : Store := #[{ items := some 1, itemsArray := some [2] }, {}, {}]
+    (Go.checkStructure st 5 [(0, "")] []).bind (fun res => .ok (res.map fun e => (e.1, e.2.path))) =
+        .ok [(0, "root"), (1, "/items"), (2, "/items/0")] ∧
+      dereference st true true 0 "/items/0" = .err ∧ Go.basicChecksOk st[0] = false := by
+  decide +kernel
 /-- index rules: the unrepaired rule accepted a sign -/
 example : arrayIndex true "+1" 2 = none := by decide
 example : arrayIndex false "+1" 2 = some 1 := by decide
